@@ -60,6 +60,19 @@ func (pass *PrefixObjectNames) processObject(visitor *Visitor, schema *ast.Schem
 
 func (pass *PrefixObjectNames) processStruct(visitor *Visitor, schema *ast.Schema, structDef ast.Type) (ast.Type, error) {
 	var err error
+
+	// The disjunctions kept as hints refer to objects too: in their mapping
+	// and in their branches.
+	// Note: they are copied before the fields are visited, since the fields
+	// of a struct generated from a disjunction may share their references
+	// with the branches of that disjunction.
+	hintedDisjunctions := make(map[string]ast.DisjunctionType)
+	for _, hint := range []string{ast.HintDisjunctionOfScalars, ast.HintDiscriminatedDisjunctionOfRefs} {
+		if disjunction, ok := structDef.Hints[hint].(ast.DisjunctionType); ok {
+			hintedDisjunctions[hint] = disjunction.DeepCopy()
+		}
+	}
+
 	for i, field := range structDef.Struct.Fields {
 		structDef.Struct.Fields[i], err = visitor.VisitStructField(schema, field)
 		if err != nil {
@@ -67,10 +80,18 @@ func (pass *PrefixObjectNames) processStruct(visitor *Visitor, schema *ast.Schem
 		}
 	}
 
-	if structDef.HasHint(ast.HintDiscriminatedDisjunctionOfRefs) {
-		disjunction := structDef.Hints[ast.HintDiscriminatedDisjunctionOfRefs].(ast.DisjunctionType)
+	for hint, disjunction := range hintedDisjunctions {
 		disjunction.DiscriminatorMapping = pass.processDisjunctionMapping(disjunction.DiscriminatorMapping)
-		structDef.Hints[ast.HintDiscriminatedDisjunctionOfRefs] = disjunction
+		for i, branch := range disjunction.Branches {
+			disjunction.Branches[i], err = visitor.VisitType(schema, branch)
+			if err != nil {
+				return ast.Type{}, err
+			}
+		}
+
+		structDef.Hints[hint] = disjunction
+	}
+	if structDef.HasHint(ast.HintDiscriminatedDisjunctionOfRefs) {
 		structDef.AddToPassesTrail(fmt.Sprintf("PrefixObjectNames[prefix=%s]", pass.Prefix))
 	}
 
